@@ -1,12 +1,12 @@
 CONSTANTS
-  Devs = {}
+  Devs = {"Dev_ArrowParamTempInBody"}
   EosChoices = {TRUE, FALSE}
   MaxItems = 2
   MaxBody = 1
-  Depth = 2
+  Depth = 1
   SiteKinds = {"plain", "call", "ident"}
   ItemKinds = {"assign", "fn", "arrow", "fnparam", "classfield", "block", "arrowparam"}
 INIT Init
 NEXT Next
 VIEW view
-INVARIANTS ScopeOK NoDuplicateDecl NoLeak DeclsUsed HelperIffNeeded FramesBalanced TargetFresh CaptureOnlyOwn CaptureWhenOwn Emit
+INVARIANTS ScopeOK NoDuplicateDecl NoLeak DeclsUsed HelperIffNeeded FramesBalanced TargetFresh CaptureOnlyOwn CaptureWhenOwn
